@@ -251,6 +251,10 @@ pub fn sha1_cases(rng: &mut Rng, thorough: bool, out: &mut dyn Write) {
         };
         writeln!(out, "sha1 {}", hex(&content(rng, n))).unwrap();
     }
+    // bit length crossing 2^24 (the fourth-lowest trailer byte becomes non-zero at 2 MiB): on every run
+    for n in [(2usize << 20) - 1, 2 << 20, (2 << 20) + 57, 4718592 + 13] {
+        writeln!(out, "sha1 {}", hex(&rng.bytes(n))).unwrap();
+    }
     if thorough {
         for n in [(4usize << 20) + 55, (8 << 20) + 56, (3 << 20) + 64] {
             writeln!(out, "sha1 {}", hex(&content(rng, n))).unwrap();
